@@ -9,6 +9,7 @@
   Spec:   `Fc.Spec.readsAsWhole`, `Fc.Spec.isPartition`, `Fc.Spec.wholeField`, `Fc.Spec.restrictField`
 -/
 import FcProofs.Lemmas.Merge
+import FcProofs.Lemmas.MergeStep
 import FcProofs.Lemmas.MergeStructured
 namespace Fc
 open Spec
@@ -58,6 +59,102 @@ theorem C06_dup_search (src tgt : List (List Int)) (sidx : List Nat) (d : Nat)
 theorem C06_lexsort_sorts (pts : List (List Int)) (d : Nat) (hd : ∀ p ∈ pts, p.length = d) :
     IsLexSort pts (lexsortIdx pts) :=
   lexsortIdx_isLexSort pts d hd
+
+/-- **C06 (one `_merge` step).**  `f1` = the mesh merged so far, `f2` = the next piece; both without
+    coincident points, corner indices in range, fields `cnames` / `pnames` present and well-formed
+    (`PieceOk`); `srt` any lexicographic sort.  If the piece brings at least one point that is not
+    in `f1` (the F3-excluding hypothesis), then
+    * for EVERY cell type the merged data set lists exactly `f1`'s cells followed by `f2`'s cells, each
+      with its corner coordinates and its cell data (equality of lists: nothing lost, nothing twice);
+    * the merged point items are `f1`'s followed by those of the piece's non-duplicate points;
+    * a coordinate occurs in the merged mesh iff it occurs in `f1` or `f2`, and occurs once;
+    * the result satisfies `PieceOk` again (so the step can be iterated). -/
+theorem C06_merge_step_partial (srt : List (List Int) → List Nat) (hsrt : SortsRows srt)
+    (f1 f2 : MeshFields) (d : Nat) (cnames pnames : List String) (rsC rsP : String → Nat)
+    (h1 : PieceOk f1 d cnames pnames rsC rsP) (h2 : PieceOk f2 d cnames pnames rsC rsP)
+    (hnew : bringsNewPoint f1.mesh.points f2.mesh.points = true) :
+    (∀ ct, cellItemsOf (merge1 srt f1 f2) cnames ct = cellItemsOf f1 cnames ct ++ cellItemsOf f2 cnames ct) ∧
+    pointItemsOf (merge1 srt f1 f2) pnames =
+      pointItemsOf f1 pnames ++ (filterExternal (stepDups srt f1 f2)).map (pointItemBy f2 pnames) ∧
+    (∀ q, q ∈ (merge1 srt f1 f2).mesh.points ↔ q ∈ f1.mesh.points ∨ q ∈ f2.mesh.points) ∧
+    (merge1 srt f1 f2).mesh.points.Nodup ∧
+    PieceOk (merge1 srt f1 f2) d cnames pnames rsC rsP := by
+  have hinv := stepDups_inv srt hsrt f1 f2 d cnames pnames rsC rsP h2
+  have hfilt := filter_nonempty_of_new _ _ _ hinv hnew
+  rw [merge1_eq_stepResult srt f1 f2 hfilt]
+  have hok := stepResult_ok srt f1 f2 d cnames pnames rsC rsP h1 h2 hinv
+  exact ⟨cellItemsOf_step srt f1 f2 d cnames pnames rsC rsP h1 h2 hinv,
+    pointItemsOf_step srt f1 f2 d cnames pnames rsC rsP h1 h2 hinv,
+    fun q => mem_mergedPoints _ _ _ hinv q, hok.nodup, hok⟩
+
+/-- **C06 (finding F3, in general).**  Whenever every point of the next piece already exists in the
+    mesh merged so far, `_merge` returns the earlier mesh unchanged — whatever cells and cell data
+    the piece carries. (This is the negation of the hypothesis of `C06_merge_step_partial`.) -/
+theorem C06_merge_drops_piece_without_new_point (srt : List (List Int) → List Nat) (hsrt : SortsRows srt)
+    (f1 f2 : MeshFields) (d : Nat) (cnames pnames : List String) (rsC rsP : String → Nat)
+    (h2 : PieceOk f2 d cnames pnames rsC rsP)
+    (hnew : bringsNewPoint f1.mesh.points f2.mesh.points = false) :
+    merge1 srt f1 f2 = f1 :=
+  merge1_eq_left srt f1 f2
+    (filter_empty_of_not_new _ _ _ (stepDups_inv srt hsrt f1 f2 d cnames pnames rsC rsP h2) hnew)
+
+/-
+  Full-strength statement (FALSE for the current code, see FcProofs/Witness/C06.lean, finding F3):
+
+    theorem C06_unstructured  … same hypotheses WITHOUT `hnew : f3Class pieces = false` …
+-/
+
+/-- **C06 (unstructured, any splitting, any piece order).**  `pieces` = the pieces in listing order
+    (any order), `whole` = the unpartitioned data set, conforming (no coincident points).
+    `hcells`: every cell of the whole data set is in exactly one piece (per cell type, with corner
+    coordinates and cell data — any assignment of cells to pieces); `hpts1`/`hpts2`: the pieces'
+    points are points of the whole data set with the same field values (single-valued fields) and
+    every point of the whole data set is in some piece.  If **every later piece brings at least one
+    new point** (`f3Class pieces = false`), then `merge(*pieces)` has, for every cell type, exactly the
+    cells of the whole data set (up to reordering, with multiplicity), exactly its points — each
+    once — with their field values. -/
+theorem C06_unstructured_partial (srt : List (List Int) → List Nat) (hsrt : SortsRows srt)
+    (d : Nat) (cnames pnames : List String) (rsC rsP : String → Nat)
+    (whole : MeshFields) (pieces : List MeshFields)
+    (hp : ∀ f ∈ pieces, PieceOk f d cnames pnames rsC rsP)
+    (hconf : whole.mesh.points.Nodup)
+    (hcells : ∀ ct, (cellItemsOf whole cnames ct).Perm (pieces.flatMap (cellItemsOf · cnames ct)))
+    (hpts1 : ∀ f ∈ pieces, ∀ it ∈ pointItemsOf f pnames, it ∈ pointItemsOf whole pnames)
+    (hpts2 : ∀ it ∈ pointItemsOf whole pnames, ∃ f ∈ pieces, it ∈ pointItemsOf f pnames)
+    (hne : pieces ≠ [])
+    (hnew : f3Class pieces = false) :
+    ∃ m, mergeAll srt pieces = some m ∧
+      (∀ ct, (cellItemsOf m cnames ct).Perm (cellItemsOf whole cnames ct)) ∧
+      (pointItemsOf m pnames).Perm (pointItemsOf whole pnames) ∧
+      m.mesh.points.Nodup := by
+  cases pieces with
+  | nil => exact absurd rfl hne
+  | cons f rest =>
+    simp only [f3Class, Bool.not_eq_false'] at hnew
+    obtain ⟨hok, hc, hpt⟩ := mergeFold_spec srt hsrt d cnames pnames rsC rsP
+      (pointItemsOf whole pnames) (pointItems_single_valued whole pnames hconf)
+      rest f f.mesh.points (hp f (List.mem_cons_self ..))
+      (fun g hg => hp g (List.mem_cons_of_mem _ hg)) (fun _ => Iff.rfl)
+      (hpts1 f (List.mem_cons_self ..)) (fun g hg => hpts1 g (List.mem_cons_of_mem _ hg)) hnew
+    refine ⟨rest.foldl (merge1 srt) f, rfl, ?_, ?_, hok.nodup⟩
+    · intro ct
+      rw [hc ct]
+      exact (hcells ct).symm
+    · rw [List.perm_iff_count]
+      intro it
+      rw [(pointItemsOf_nodup _ pnames hok.nodup).count, (pointItemsOf_nodup whole pnames hconf).count]
+      have : it ∈ pointItemsOf (rest.foldl (merge1 srt) f) pnames ↔ it ∈ pointItemsOf whole pnames := by
+        rw [hpt it]
+        constructor
+        · rintro (h | ⟨g, hg, h⟩)
+          · exact hpts1 f (List.mem_cons_self ..) it h
+          · exact hpts1 g (List.mem_cons_of_mem _ hg) it h
+        · intro h
+          obtain ⟨g, hg, hgi⟩ := hpts2 it h
+          rcases List.mem_cons.mp hg with rfl | hg'
+          · exact Or.inl hgi
+          · exact Or.inr ⟨g, hg', hgi⟩
+      simp only [this]
 
 /-- **C06 (structured index maps).**  For every dimension, every lattice shape and every axis-aligned
     decomposition `d` (cells per piece along each direction; every direction has at least one piece):
